@@ -308,13 +308,14 @@ fn run_len<A: Alphabet>(case: u64, rng: &mut Rng, rep: &mut Report, alpha: &str,
 
 pub fn run(cfg: &Config) -> Report {
     let ls = lengths(cfg);
-    let n = (ls.len() * 2) as u64;
+    let n = (ls.len() * 3) as u64;
     run_cases(cfg, n, |case, rng, rep| {
-        let l = ls[(case / 2) as usize];
-        if case % 2 == 0 {
-            run_len::<Dna>(case, rng, rep, "dna", l, cfg);
-        } else {
-            run_len::<Protein>(case, rng, rep, "protein", l, cfg);
+        let l = ls[(case / 3) as usize];
+        match case % 3 {
+            0 => run_len::<Dna>(case, rng, rep, "dna", l, cfg),
+            1 => run_len::<Protein>(case, rng, rep, "protein", l, cfg),
+            // five regular symbols + wildcard (public traits): K = 6 is neither 4n nor 4n + 1
+            _ => run_len::<crate::model::Abc6>(case, rng, rep, "user_defined_6", l, cfg),
         }
     })
 }
